@@ -1,12 +1,558 @@
-use crate::util::Report;
-use crate::Ctx;
-use serde_json::Value;
+//! C17 — the shared encoding-plan cache is transparent and bounded under concurrency.
+//! The harness owns the schedule: every thread parks before each critical section of the cache
+//! (lookup, insert) and the scheduler releases exactly one thread per step, in the generated (or
+//! exhaustively enumerated) order. Invariants are checked after every critical section.
 
-pub fn run(_ctx: &Ctx, _rep: &mut Report) {
-    eprintln!("not implemented yet");
-    std::process::exit(2);
+use crate::codec::{block_cfg, make_data, DataClass};
+use crate::util::{catch, fnv_u64s, simple_failure, Failure, Report, SplitMix, Stats, SubOutcome, Tier};
+use crate::Ctx;
+use proptest::prelude::*;
+use proptest::strategy::ValueTree;
+use proptest::test_runner::{Config, RngSeed, TestRunner};
+use raptorq::verif::verif_cache as vc;
+use raptorq::{SourceBlockEncoder, SourceBlockEncodingPlan};
+use serde_json::{json, Value};
+use std::cell::Cell;
+use std::collections::{BTreeSet, HashMap};
+use std::sync::{Arc, Condvar, Mutex, OnceLock};
+use std::time::Instant;
+
+// --- the controlled scheduler ---------------------------------------------------------------------
+
+#[derive(Default)]
+struct State {
+    turn: Option<usize>,
+    parked: Vec<bool>,
+    finished: Vec<bool>,
+    /// (point, k) where each thread is parked
+    at: Vec<(u8, u16)>,
+    /// log of passed points: (thread, point, k)
+    log: Vec<(usize, u8, u16)>,
+    panicked: Option<String>,
 }
 
-pub fn replay(_sub: &str, _case: &Value) -> Result<(), String> {
-    Err("not implemented".into())
+struct Sched {
+    st: Mutex<State>,
+    cv: Condvar,
+}
+
+static SCHED: Mutex<Option<Arc<Sched>>> = Mutex::new(None);
+
+thread_local! {
+    static TID: Cell<Option<usize>> = const { Cell::new(None) };
+}
+
+fn current_sched() -> Option<Arc<Sched>> {
+    SCHED.lock().unwrap_or_else(|p| p.into_inner()).clone()
+}
+
+/// Installed as the crate's yield callback.
+fn yield_hook(point: u8, k: u16) {
+    let Some(id) = TID.with(|t| t.get()) else { return };
+    let Some(s) = current_sched() else { return };
+    let mut g = s.st.lock().unwrap_or_else(|p| p.into_inner());
+    g.log.push((id, point, k));
+    // scheduling decisions are only needed in front of the two critical sections
+    // (0: before the lookup, 2: before the insert); code between them is thread-local
+    if point == 1 || point == 3 {
+        return;
+    }
+    park(&s, g, id, point, k);
+}
+
+fn park(s: &Sched, mut g: std::sync::MutexGuard<'_, State>, id: usize, point: u8, k: u16) {
+    g.parked[id] = true;
+    g.at[id] = (point, k);
+    s.cv.notify_all();
+    while g.turn != Some(id) {
+        g = s.cv.wait(g).unwrap_or_else(|p| p.into_inner());
+    }
+    g.turn = None;
+    g.parked[id] = false;
+}
+
+fn data_for(k: u16) -> Vec<u8> {
+    make_data(DataClass::Random, 0xC17 + k as u64, k as usize * 2)
+}
+
+/// Baseline encoders built without the cache, one per size (computed once).
+fn baseline(k: u16) -> Arc<(SourceBlockEncoder, SourceBlockEncoder)> {
+    static B: OnceLock<Mutex<HashMap<u16, Arc<(SourceBlockEncoder, SourceBlockEncoder)>>>> = OnceLock::new();
+    let m = B.get_or_init(|| Mutex::new(HashMap::new()));
+    if let Some(b) = m.lock().unwrap().get(&k) {
+        return b.clone();
+    }
+    let data = data_for(k);
+    let cfg = block_cfg(k as usize, 2);
+    let planned = SourceBlockEncoder::with_encoding_plan(0, &cfg, &data, &SourceBlockEncodingPlan::generate(k));
+    let unplanned = SourceBlockEncoder::verif_new_unplanned(0, &cfg, &data, 250).expect("singular");
+    let b = Arc::new((planned, unplanned));
+    m.lock().unwrap().insert(k, b.clone());
+    b
+}
+
+#[derive(Debug, Clone)]
+pub struct Case {
+    /// requests per thread
+    reqs: Vec<Vec<u16>>,
+    /// scheduling choices: at step i release runnable thread number (choice mod #runnable)
+    schedule: Vec<u8>,
+    /// sizes requested single-threaded before the concurrent part (to pre-fill the cache)
+    prefill: Vec<u16>,
+}
+
+#[derive(Default, Debug)]
+pub struct Outcome {
+    steps: usize,
+    /// number of runnable threads at each step (for exhaustive enumeration)
+    branching: Vec<usize>,
+    double_miss: bool,
+    evictions: u32,
+    hit_after_eviction: bool,
+    max_len: usize,
+}
+
+fn check_cache_invariants(ctx_msg: &str) -> Result<(Vec<(u16, u16)>, Vec<u16>), String> {
+    let (plans, order, poisoned) = vc::snapshot();
+    if poisoned {
+        return Err(format!("{ctx_msg}: the cache lock is poisoned"));
+    }
+    if plans.len() > vc::CAPACITY {
+        return Err(format!("{ctx_msg}: cache holds {} plans, capacity is {}", plans.len(), vc::CAPACITY));
+    }
+    for &(key, count) in &plans {
+        if key != count {
+            return Err(format!("{ctx_msg}: plan stored under key {key} was generated for {count} symbols"));
+        }
+    }
+    let keys: BTreeSet<u16> = plans.iter().map(|p| p.0).collect();
+    let oset: BTreeSet<u16> = order.iter().copied().collect();
+    if oset.len() != order.len() {
+        return Err(format!("{ctx_msg}: eviction queue contains duplicates: {order:?}"));
+    }
+    if oset != keys {
+        return Err(format!("{ctx_msg}: eviction queue {order:?} is not a permutation of the cached keys {keys:?}"));
+    }
+    Ok((plans, order))
+}
+
+/// Executes one case under the controlled scheduler. Must not run concurrently with another.
+fn execute(c: &Case) -> Result<Outcome, String> {
+    vc::clear();
+    vc::set_yield(None);
+    // single-threaded prefill (not scheduled)
+    for &k in &c.prefill {
+        let e = SourceBlockEncoder::new(0, &block_cfg(k as usize, 2), &data_for(k));
+        if e != baseline(k).0 {
+            return Err(format!("prefill: SourceBlockEncoder::new for K={k} differs from the encoder built without the cache"));
+        }
+    }
+    check_cache_invariants("after prefill")?;
+    let n = c.reqs.len();
+    let sched = Arc::new(Sched {
+        st: Mutex::new(State { turn: None, parked: vec![false; n], finished: vec![false; n], at: vec![(0, 0); n], log: vec![], panicked: None }),
+        cv: Condvar::new(),
+    });
+    *SCHED.lock().unwrap_or_else(|p| p.into_inner()) = Some(sched.clone());
+    vc::set_yield(Some(yield_hook));
+    let results: Arc<Mutex<Vec<Vec<(u16, SourceBlockEncoder)>>>> = Arc::new(Mutex::new(vec![vec![]; n]));
+    let mut handles = vec![];
+    for (id, reqs) in c.reqs.iter().cloned().enumerate() {
+        let s = sched.clone();
+        let results = results.clone();
+        handles.push(std::thread::spawn(move || {
+            TID.with(|t| t.set(Some(id)));
+            let r = catch(|| {
+                for k in reqs {
+                    let e = SourceBlockEncoder::new(0, &block_cfg(k as usize, 2), &data_for(k));
+                    results.lock().unwrap()[id].push((k, e));
+                }
+            });
+            let mut g = s.st.lock().unwrap_or_else(|p| p.into_inner());
+            if let Err(p) = r {
+                g.panicked = Some(format!("thread {id} panicked: {p}"));
+            }
+            g.finished[id] = true;
+            s.cv.notify_all();
+        }));
+    }
+    let mut out = Outcome::default();
+    let mut err: Option<String> = None;
+    let evicted_before: BTreeSet<u16> = BTreeSet::new();
+    let mut evicted = evicted_before;
+    let mut prev_keys: BTreeSet<u16> = vc::snapshot().0.iter().map(|p| p.0).collect();
+    loop {
+        // wait until every thread is parked or finished
+        let mut g = sched.st.lock().unwrap_or_else(|p| p.into_inner());
+        while !(0..n).all(|i| g.parked[i] || g.finished[i]) {
+            g = sched.cv.wait(g).unwrap_or_else(|p| p.into_inner());
+        }
+        if let Some(p) = g.panicked.take() {
+            err = Some(p);
+        }
+        // all threads quiescent: the cache is between critical sections
+        let now = match check_cache_invariants(&format!("after step {}", out.steps)) {
+            Ok((plans, _)) => plans.iter().map(|p| p.0).collect::<BTreeSet<u16>>(),
+            Err(m) => {
+                err.get_or_insert(m);
+                prev_keys.clone()
+            }
+        };
+        out.max_len = out.max_len.max(now.len());
+        for gone in prev_keys.difference(&now) {
+            evicted.insert(*gone);
+            out.evictions += 1;
+        }
+        prev_keys = now;
+        // double miss: two threads parked in front of the insert for the same size
+        let waiting_insert: Vec<u16> = (0..n).filter(|&i| g.parked[i] && g.at[i].0 == 2).map(|i| g.at[i].1).collect();
+        let mut ws = waiting_insert.clone();
+        ws.sort_unstable();
+        if ws.windows(2).any(|w| w[0] == w[1]) {
+            out.double_miss = true;
+        }
+        let runnable: Vec<usize> = (0..n).filter(|&i| g.parked[i] && !g.finished[i]).collect();
+        if runnable.is_empty() {
+            break;
+        }
+        let choice = *c.schedule.get(out.steps).unwrap_or(&0) as usize % runnable.len();
+        out.branching.push(runnable.len());
+        out.steps += 1;
+        let id = runnable[choice];
+        // a hit on a size that had been evicted earlier and re-inserted
+        g.turn = Some(id);
+        sched.cv.notify_all();
+        // wait until that thread parks again or finishes
+        while g.turn == Some(id) || !(g.parked[id] || g.finished[id]) {
+            g = sched.cv.wait(g).unwrap_or_else(|p| p.into_inner());
+        }
+        drop(g);
+        if err.is_some() {
+            // let everything drain without further checks
+        }
+    }
+    for h in handles {
+        let _ = h.join();
+    }
+    vc::set_yield(None);
+    let log = std::mem::take(&mut sched.st.lock().unwrap_or_else(|p| p.into_inner()).log);
+    *SCHED.lock().unwrap_or_else(|p| p.into_inner()) = None;
+    if let Some(m) = err {
+        return Err(m);
+    }
+    // hit after eviction: a request for an evicted size that went lookup -> done without a miss
+    for w in log.windows(2) {
+        if w[0].0 == w[1].0 && w[0].1 == 0 && w[1].1 == 3 && evicted.contains(&w[0].2) {
+            out.hit_after_eviction = true;
+        }
+    }
+    // (1) every encoder equals the one built without the cache
+    let results = results.lock().unwrap();
+    for (id, rs) in results.iter().enumerate() {
+        if rs.len() != c.reqs[id].len() {
+            return Err(format!("thread {id} completed {} of {} requests", rs.len(), c.reqs[id].len()));
+        }
+        for (k, e) in rs {
+            let b = baseline(*k);
+            if *e != b.0 {
+                return Err(format!("thread {id}: SourceBlockEncoder::new for K={k} differs (==) from with_encoding_plan(generate({k})) built without the cache"));
+            }
+            if e.source_packets() != b.1.source_packets() || e.repair_packets(0, 4) != b.1.repair_packets(0, 4) || e.repair_packets(70000, 2) != b.1.repair_packets(70000, 2) {
+                return Err(format!("thread {id}: packets of the encoder for K={k} differ from the unplanned encoder"));
+            }
+        }
+    }
+    check_cache_invariants("at the end")?;
+    Ok(out)
+}
+
+static SERIAL: Mutex<()> = Mutex::new(());
+
+fn run_case(c: &Case, st: &mut Stats) -> Result<Outcome, String> {
+    let _g = SERIAL.lock().unwrap_or_else(|p| p.into_inner());
+    let o = execute(c)?;
+    st.eval();
+    st.class_if(o.double_miss, "double miss on the same size before either insert");
+    st.class_if(o.evictions > 0, "insert that evicts");
+    st.class_if(o.hit_after_eviction, "hit after eviction and re-insertion");
+    st.class_if(o.max_len == vc::CAPACITY, "cache at capacity");
+    if o.double_miss || o.evictions > 0 {
+        let mut v: Vec<u64> = c.schedule.iter().map(|&x| x as u64).collect();
+        v.extend(c.reqs.iter().flatten().map(|&k| k as u64 + 1000));
+        v.extend(c.prefill.iter().map(|&k| k as u64 + 100000));
+        st.nt(fnv_u64s(&v));
+    }
+    Ok(o)
+}
+
+fn case_json(c: &Case) -> Value {
+    json!({"reqs": c.reqs, "schedule": c.schedule, "prefill": c.prefill})
+}
+
+fn case_from(v: &Value) -> Case {
+    let arr = |x: &Value| -> Vec<u16> { x.as_array().map(|a| a.iter().map(|y| y.as_u64().unwrap() as u16).collect()).unwrap_or_default() };
+    Case {
+        reqs: v["reqs"].as_array().unwrap().iter().map(arr).collect(),
+        schedule: v["schedule"].as_array().unwrap().iter().map(|y| y.as_u64().unwrap() as u8).collect(),
+        prefill: arr(&v["prefill"]),
+    }
+}
+
+fn sig(msg: &str) -> String {
+    let kind = if msg.contains("panicked") {
+        "panic"
+    } else if msg.contains("capacity") {
+        "capacity"
+    } else if msg.contains("duplicates") || msg.contains("permutation") {
+        "queue-bijection"
+    } else if msg.contains("was generated for") {
+        "wrong-plan-for-key"
+    } else if msg.contains("differs") || msg.contains("differ") {
+        "encoder-differs"
+    } else if msg.contains("poisoned") {
+        "poisoned"
+    } else {
+        "other"
+    };
+    format!("cache:{kind}")
+}
+
+/// Exhaustive enumeration of all interleavings of the critical sections for one request shape.
+fn enumerate_shape(reqs: &[Vec<u16>], prefill: &[u16], st: &mut Stats, failures: &mut Vec<Failure>, cap: usize) -> usize {
+    let mut prefix: Vec<u8> = vec![];
+    let mut count = 0usize;
+    loop {
+        let c = Case { reqs: reqs.to_vec(), schedule: prefix.clone(), prefill: prefill.to_vec() };
+        let o = match run_case(&c, st) {
+            Ok(o) => o,
+            Err(m) => {
+                if failures.is_empty() {
+                    failures.push(simple_failure("schedule", m.clone(), sig(&m), case_json(&c)));
+                }
+                return count;
+            }
+        };
+        count += 1;
+        if count == 1 {
+            st.sample(|| json!({"reqs": reqs, "prefill": prefill, "schedule": "all interleavings", "steps": o.steps}));
+        }
+        if count >= cap {
+            st.class("exhaustive enumeration truncated by the cap");
+            return count;
+        }
+        // next schedule in lexicographic order over the branching structure
+        let mut full: Vec<u8> = prefix.clone();
+        full.resize(o.steps, 0);
+        let mut i = o.steps;
+        loop {
+            if i == 0 {
+                return count;
+            }
+            i -= 1;
+            if (full[i] as usize) + 1 < o.branching[i] {
+                full[i] += 1;
+                full.truncate(i + 1);
+                break;
+            }
+        }
+        prefix = full;
+    }
+}
+
+#[derive(Debug, Clone)]
+struct Gen {
+    threads: usize,
+    sizes: Vec<u16>,
+    schedule: Vec<u8>,
+    prefill_n: usize,
+    prefill_seed: u64,
+}
+
+fn random_strategy(evict: bool) -> impl Strategy<Value = Case> {
+    (
+        2usize..=4,
+        proptest::collection::vec(any::<u16>(), 2..=if evict { 40 } else { 20 }),
+        proptest::collection::vec(any::<u8>(), 0..120),
+        if evict { 60usize..=90 } else { 0usize..=3 },
+        any::<u64>(),
+    )
+        .prop_map(move |(threads, sizes, schedule, prefill_n, prefill_seed)| {
+            let g = Gen { threads, sizes, schedule, prefill_n, prefill_seed };
+            // distinct prefill sizes in 1..=120
+            let mut rng = SplitMix::new(g.prefill_seed);
+            let mut pool: Vec<u16> = (1..=120).collect();
+            rng.shuffle(&mut pool);
+            let prefill: Vec<u16> = pool[..g.prefill_n].to_vec();
+            // concurrent requests: from a small alphabet so that collisions are common; with
+            // eviction: sizes that were prefilled early (already evicted) and fresh ones
+            let alphabet: Vec<u16> = if evict {
+                let mut a: Vec<u16> = prefill.iter().take(6).copied().collect();
+                a.extend(pool[g.prefill_n..(g.prefill_n + 6).min(120)].iter().copied());
+                a
+            } else {
+                vec![3, 5, 9, 12]
+            };
+            let mut reqs: Vec<Vec<u16>> = vec![vec![]; g.threads];
+            for (i, raw) in g.sizes.iter().enumerate() {
+                if reqs[i % g.threads].len() < 6 {
+                    reqs[i % g.threads].push(alphabet[(*raw as usize * alphabet.len()) >> 16]);
+                }
+            }
+            reqs.retain(|r| !r.is_empty());
+            Case { reqs, schedule: g.schedule, prefill }
+        })
+}
+
+fn run_random(name: &str, seed: u64, n: u64, evict: bool) -> SubOutcome {
+    let started = Instant::now();
+    let mut st = Stats::new();
+    let mut failures = vec![];
+    let strat = random_strategy(evict);
+    let mut runner = TestRunner::new(Config { cases: n as u32, failure_persistence: None, rng_seed: RngSeed::Fixed(crate::util::derive_seed(seed, "C17", name, 0)), max_shrink_iters: 300, ..Config::default() });
+    // driven manually (sequentially): cases must not overlap because the cache is process-wide
+    for _ in 0..n {
+        let mut tree = strat.new_tree(&mut runner).unwrap();
+        let c = tree.current();
+        if let Err(m) = run_case(&c, &mut st) {
+            // shrink by hand with the value tree
+            st.freeze();
+            let mut best = (c.clone(), m.clone());
+            let mut iters = 0;
+            while iters < 300 && tree.simplify() {
+                iters += 1;
+                loop {
+                    let cand = tree.current();
+                    match run_case(&cand, &mut Stats::new()) {
+                        Err(m2) => {
+                            best = (cand, m2);
+                            break;
+                        }
+                        Ok(_) => {
+                            if !tree.complicate() {
+                                break;
+                            }
+                        }
+                    }
+                    iters += 1;
+                    if iters >= 300 {
+                        break;
+                    }
+                }
+            }
+            failures.push(simple_failure(name, best.1.clone(), sig(&best.1), case_json(&best.0)));
+            break;
+        }
+        st.sample(|| json!({"threads": c.reqs.len(), "reqs": c.reqs, "prefill_sizes": c.prefill.len(), "schedule_len": c.schedule.len()}));
+    }
+    SubOutcome { stats: st, failures, wall_s: started.elapsed().as_secs_f64() }
+}
+
+/// Uncontrolled stress: real threads, no scheduling; same invariants at the end.
+fn stress(seed: u64, threads: usize, per_thread: usize) -> SubOutcome {
+    let started = Instant::now();
+    let _g = SERIAL.lock().unwrap_or_else(|p| p.into_inner());
+    vc::clear();
+    vc::set_yield(None);
+    let mut st = Stats::new();
+    let mut failures = vec![];
+    let errs: Arc<Mutex<Vec<String>>> = Arc::new(Mutex::new(vec![]));
+    let mut hs = vec![];
+    for t in 0..threads {
+        let errs = errs.clone();
+        hs.push(std::thread::spawn(move || {
+            let mut rng = SplitMix::new(crate::util::mix(seed, t as u64));
+            for _ in 0..per_thread {
+                let k = 1 + rng.below(100) as u16;
+                let r = catch(|| SourceBlockEncoder::new(0, &block_cfg(k as usize, 2), &data_for(k)));
+                match r {
+                    Ok(e) => {
+                        if e != baseline(k).0 {
+                            errs.lock().unwrap().push(format!("stress: encoder for K={k} differs from the uncached one"));
+                            return;
+                        }
+                    }
+                    Err(p) => {
+                        errs.lock().unwrap().push(format!("stress: thread panicked: {p}"));
+                        return;
+                    }
+                }
+            }
+        }));
+    }
+    for h in hs {
+        let _ = h.join();
+    }
+    st.evals((threads * per_thread) as u64);
+    st.nt_enumerated(1);
+    st.nt_enumerated(1);
+    if let Some(m) = errs.lock().unwrap().first() {
+        failures.push(simple_failure("stress", m.clone(), sig(m), json!({"seed": seed})));
+    }
+    if let Err(m) = check_cache_invariants("after the stress run") {
+        failures.push(simple_failure("stress", m.clone(), sig(&m), json!({"seed": seed})));
+    }
+    failures.truncate(1);
+    SubOutcome { stats: st, failures, wall_s: started.elapsed().as_secs_f64() }
+}
+
+pub fn run(ctx: &Ctx, rep: &mut Report) {
+    rep.rule = "controlled schedules: 2-4 threads build block encoders through the process-wide plan cache; every thread parks before each of the cache's two critical sections (lookup, insert; hook yield points 0 and 2) and the harness's scheduler releases exactly one thread per step. (a) exhaustive: all interleavings of the critical sections for shapes 2 threads x 2 requests (all 16 size assignments over a 2-letter alphabet), 3 x 1 (all 8), 3 x 2 (selected assignments), also with the cache pre-filled to capacity so that inserts evict; (b) generated: request lists over a small alphabet (collisions common) with generated schedules; (c) generated eviction histories: 60-90 distinct sizes pre-filled, then concurrent requests for already-evicted and fresh sizes. Invariants after every critical section: at most 64 plans, the eviction queue is a duplicate-free permutation of the key set, every plan's symbol count equals its key, lock not poisoned; at the end every encoder == the encoder built without the cache (with_encoding_plan(generate(k))) and emits the packets of the unplanned encoder. Non-trivial = schedule with a double miss on one size before either insert, or an insert that evicts; distinct by (requests, prefill, schedule).".into();
+    rep.assumptions.push("all shared state of the cache lives behind one Mutex and code between the critical sections touches thread-local data only, so interleavings at critical-section granularity cover all observable behaviours (std::sync::Mutex assumed correct)".into());
+    rep.exhaustive = true;
+    let started = Instant::now();
+    let mut st = Stats::new();
+    let mut failures: Vec<Failure> = vec![];
+    let (a, b) = (5u16, 7u16);
+    let mut shapes: Vec<(Vec<Vec<u16>>, Vec<u16>)> = vec![];
+    // 2 threads x 2 requests: all assignments
+    for m in 0..16u32 {
+        let s = |bit: u32| if m >> bit & 1 == 0 { a } else { b };
+        shapes.push((vec![vec![s(0), s(1)], vec![s(2), s(3)]], vec![]));
+    }
+    // 3 threads x 1 request
+    for m in 0..8u32 {
+        let s = |bit: u32| if m >> bit & 1 == 0 { a } else { b };
+        shapes.push((vec![vec![s(0)], vec![s(1)], vec![s(2)]], vec![]));
+    }
+    // at capacity: 64 other sizes pre-filled, so every insert evicts; then a re-request
+    let full: Vec<u16> = (20..84).collect();
+    shapes.push((vec![vec![a, 20], vec![a, b]], full.clone()));
+    shapes.push((vec![vec![a], vec![b], vec![20]], full.clone()));
+    shapes.push((vec![vec![a, a], vec![20, a]], full.clone()));
+    // 3 x 2
+    shapes.push((vec![vec![a, b], vec![b, a], vec![a, a]], vec![]));
+    if ctx.tier == Tier::Thorough {
+        shapes.push((vec![vec![a, a], vec![a, a], vec![a, a]], vec![]));
+        shapes.push((vec![vec![a, b], vec![a, b], vec![b, a]], full.clone()));
+        shapes.push((vec![vec![a, 20], vec![21, a], vec![b, 20]], full.clone()));
+    }
+    let cap = ctx.tier.pick(40_000usize, 400_000);
+    let mut total = 0usize;
+    for (reqs, prefill) in &shapes {
+        if !failures.is_empty() {
+            break;
+        }
+        total += enumerate_shape(reqs, prefill, &mut st, &mut failures, cap);
+    }
+    st.class_n("schedules enumerated exhaustively", total as u64);
+    st.class_n("request shapes", shapes.len() as u64);
+    rep.absorb("exhaustive", SubOutcome { stats: st, failures, wall_s: started.elapsed().as_secs_f64() });
+    rep.absorb("random", run_random("random", ctx.seed, ctx.tier.pick(1500, 40_000), false));
+    rep.absorb("eviction", run_random("eviction", ctx.seed, ctx.tier.pick(300, 9_000), true));
+    if ctx.tier == Tier::Thorough {
+        rep.absorb("stress", stress(ctx.seed, 16, 6000));
+    } else {
+        rep.absorb("stress", stress(ctx.seed, 8, 400));
+    }
+}
+
+pub fn replay(_sub: &str, case: &Value) -> Result<(), String> {
+    if case.get("reqs").is_none() {
+        let o = stress(case["seed"].as_u64().unwrap_or(1), 8, 400);
+        return match o.failures.first() {
+            Some(f) => Err(f.message.clone()),
+            None => Ok(()),
+        };
+    }
+    run_case(&case_from(case), &mut Stats::new()).map(|_| ())
 }
